@@ -476,7 +476,7 @@ def gen_restart(cfg, wl, fl, tier):
         tbs.append(ops)
     bg = {"period": wl.choice([3, 5, maxp + 1, 2 * maxp]), "critical_ticks": wl.choice([0, 1, 2]),
           "enabled": fl.random() < 0.7, "cleanup": fl.random() < 0.4}
-    proc = {"enabled": fl.random() < 0.7, "match": wl.randrange(4)}
+    proc = {"enabled": fl.random() < 0.7, "match": wl.randrange(4), "cleanup": fl.random() < 0.4}
     resets = [fl.randint(0, 40)]
     if fl.random() < 0.4:
         resets.append(fl.randint(0, 20))
@@ -632,10 +632,16 @@ def simulate_restart(case, stats, mode=None):
 
             async def process(ctx):
                 count = 0
-                async for clk, rst, a in ctx.tick("sync").sample(dut.a):
-                    if (a & 3) == pr["match"]:
-                        count += 1
-                        ctx.set(dut.flag, count & 15)
+                try:
+                    async for clk, rst, a in ctx.tick("sync").sample(dut.a):
+                        if (a & 3) == pr["match"]:
+                            count += 1
+                            ctx.set(dut.flag, count & 15)
+                finally:
+                    # (clean-up code of a process abandoned by reset(): like the background testbench's, it belongs to the old run)
+                    if pr.get("cleanup"):
+                        ctx.set(dut.flag, 9)
+                        P["process_cleanup_ran"] = P.get("process_cleanup_ran", 0) + 1
             sim.add_process(process)
 
             async def comb_process(ctx):
@@ -811,7 +817,21 @@ def run_plan(case, res, dig, stats):
         os.chdir(cwd)
         shutil.rmtree(scratch, ignore_errors=True)
     stats["steps"] += len(f1)
-    dig.add(plan1.digest().hex() if isinstance(plan1.digest(), bytes) else str(plan1.digest()))
+    d_final = plan1.digest()
+    dig.add(d_final.hex() if isinstance(d_final, bytes) else str(d_final))
+    # the digest is a function of the plan's files, not of what was asked of the plan object before: the same file added to this
+    # plan (whose digest has been read several times) and to a freshly prepared one (never asked) gives the same files, hence
+    # the same digest - and not the digest of the plan without the file
+    plan3, _ = prepare()
+    for pl_ in (plan1, plan3):
+        pl_.add_file("verif_extra.txt", "one more file\n")
+    g1 = {k: (v if isinstance(v, bytes) else v.encode()) for k, v in plan1.files.items()}
+    g3 = {k: (v if isinstance(v, bytes) else v.encode()) for k, v in plan3.files.items()}
+    if g1 == g3 and plan1.digest() != plan3.digest():
+        raise Violation("plan_digest_depends_on_history", -1, {"files_equal": True})
+    if plan1.digest() == d_final:
+        raise Violation("plan_digest_ignores_added_file", -1, {})
+    stats["probes"]["digest_after_add_file"] = stats["probes"].get("digest_after_add_file", 0) + 1
     return any(k.endswith(ext.split("+")[0]) for k in f1)
 
 
